@@ -69,11 +69,18 @@ More == Open /\ \A a \in pa : a.bi # l
 \* C09 inside the search: a loaded value may be installed only if no write, invalidation or automatic removal of the
 \* key took effect since the load STARTED (the driver logs "ldstart" from inside the loader, which runs after the
 \* in-flight record was created) - such loads are marked dirty.  Only the caller that ran the loader installs.
-Dirty(pd, ks, except) == [c \in DOMAIN pd |-> IF c # except /\ pd[c] # None /\ pd[c].op = "ldget" /\ pd[c].started /\ ~pd[c].inst /\ pd[c].k \in ks
-                                               THEN [pd[c] EXCEPT !.dirty = TRUE] ELSE pd[c]]
+\* `touched`: some write / removal of the key took effect since the call's own linearisation point (its lookup); such
+\* a load may or may not have been installed (a write between the lookup and the registration of the in-flight record
+\* cancels nothing but makes the install step find a newer entry).
+\* An explicit invalidation (or a compute that invalidates) of an ABSENT key changes nothing in the map but still
+\* cancels an in-flight load (C09: "nothing, after an invalidation"): it touches without making the install illegal.
+Dirty2(pd, ks, kt, except) == [c \in DOMAIN pd |-> IF c # except /\ pd[c] # None /\ pd[c].op = "ldget" /\ ~pd[c].inst /\ pd[c].k \in (ks \cup kt)
+                                               THEN [pd[c] EXCEPT !.dirty = (@ \/ (pd[c].started /\ pd[c].k \in ks)), !.touched = (@ \/ pd[c].lin)] ELSE pd[c]]
+Dirty(pd, ks, except) == Dirty2(pd, ks, {}, except)
+Cancels(e) == e.op \in {"set", "inv"} \/ (e.op \in {"cmp", "cia", "cip"} /\ e.act \in {"write", "inv"})
 Call == /\ More /\ Trace[l].t = "call"
         /\ pend[Trace[l].c] = None
-        /\ pend' = [pend EXCEPT ![Trace[l].c] = [op |-> Trace[l].op, lin |-> FALSE, rv |-> NIL, rok |-> 0, inst |-> FALSE, miss |-> FALSE, dirty |-> FALSE, started |-> FALSE, k |-> Trace[l].k, ri |-> Trace[l].ri]]
+        /\ pend' = [pend EXCEPT ![Trace[l].c] = [op |-> Trace[l].op, lin |-> FALSE, rv |-> NIL, rok |-> 0, inst |-> FALSE, miss |-> FALSE, dirty |-> FALSE, touched |-> FALSE, started |-> FALSE, k |-> Trace[l].k, ri |-> Trace[l].ri]]
         /\ l' = l + 1 /\ UNCHANGED <<map, pa>>
 
 \* the return record carries what the callback saw / did, so the operation is applied with the return's fields;
@@ -83,15 +90,17 @@ Lin(c) == /\ Open /\ Trace[l].t # "call"
           /\ LET a == Apply(Trace[pend[c].ri], map)
              IN /\ a.ok
                 /\ map' = a.m
-                /\ pend' = Dirty([pend EXCEPT ![c].lin = TRUE, ![c].rv = a.rv, ![c].rok = a.rok, ![c].miss = (map[Trace[pend[c].ri].k] = NIL)],
-                                 IF a.m # map THEN (IF Trace[pend[c].ri].op = "clr" THEN KeysT ELSE {Trace[pend[c].ri].k}) ELSE {}, c)
+                /\ pend' = Dirty2([pend EXCEPT ![c].lin = TRUE, ![c].rv = a.rv, ![c].rok = a.rok, ![c].miss = (map[Trace[pend[c].ri].k] = NIL)],
+                                  IF a.m # map THEN (IF Trace[pend[c].ri].op = "clr" THEN KeysT ELSE {Trace[pend[c].ri].k}) ELSE {},
+                                  IF Cancels(Trace[pend[c].ri]) THEN {Trace[pend[c].ri].k} ELSE {}, c)
           /\ UNCHANGED <<l, pa>>
 
 \* second linearisation point of a loader-backed Get that missed: the loaded value is installed unless it was superseded
 Install(c) == /\ Open /\ Trace[l].t # "call"
               /\ pend[c] # None /\ pend[c].lin /\ pend[c].op = "ldget" /\ ~pend[c].inst /\ pend[c].miss /\ pend[c].started /\ ~pend[c].dirty
               /\ map' = [map EXCEPT ![Trace[pend[c].ri].k] = Trace[pend[c].ri].rv]
-              /\ pend' = [pend EXCEPT ![c].inst = TRUE]
+              \* the installation is a write of the key for every other load of it
+              /\ pend' = Dirty([pend EXCEPT ![c].inst = TRUE], {Trace[pend[c].ri].k}, c)
               /\ UNCHANGED <<l, pa>>
 
 Ret == /\ More /\ Trace[l].t = "ret"
@@ -99,6 +108,13 @@ Ret == /\ More /\ Trace[l].t = "ret"
           IN /\ pend[c] # None /\ pend[c].lin
              /\ pend[c].rv = Trace[l].rv /\ pend[c].rok = Trace[l].rok
              /\ (Trace[l].op = "cmp" => Trace[l].nc = 1)
+             \* single flight: a loaded value is in the cache when the call that loaded it - or a call that joined that
+             \* flight - returns, unless a write or removal of the key intervened (C09: then it is handed over only)
+             /\ (pend[c].op = "ldget" /\ pend[c].miss) =>
+                   IF pend[c].started THEN pend[c].inst \/ pend[c].touched
+                   ELSE \A d \in Clients : (d # c /\ pend[d] # None /\ pend[d].op = "ldget" /\ pend[d].k = pend[c].k /\ pend[d].started
+                                               /\ Trace[pend[d].ri].rv = Trace[l].rv)
+                                              => (pend[d].lin /\ (pend[d].inst \/ pend[d].touched))
              /\ pend' = [pend EXCEPT ![c] = None]
        /\ l' = l + 1 /\ UNCHANGED <<map, pa>>
 
